@@ -212,6 +212,50 @@ func c18Scenarios(tier string) []*Scenario {
 	mk("1w-2f", 1, 3, []int{1, 3}, false, 2, 1)
 	mk("1w-2f-unsub", 1, 2, []int{0, 2}, true, 1, 1)
 	scs = append(scs, c18wsScenarios(tier)...)
+	// through the runner, for a process that is not started automatically (disabled / foreground): its log can be
+	// asked for and followed before it is started by hand; the follower then receives what it writes
+	for _, mark := range []string{"disabled", "is_foreground"} {
+		mark := mark
+		fol := func(w *World) *c18Follower {
+			f, _ := w.Extra["late-follower"].(*c18Follower)
+			if f == nil {
+				f = &c18Follower{id: "late", tail: 10}
+				w.Extra["late-follower"] = f
+			}
+			return f
+		}
+		sc := &Scenario{ID: "c18-runner-" + mark + "-follow-before-start", K: 1, TickBudget: 1,
+			YAML:  projectYAML(nil, PC{Name: "a", Lines: []string{mark + ": true"}}, PC{Name: "x"}),
+			Procs: map[string]*ProcScript{"a": {Launches: [][]Action{{Out("l0\nl1\n")}}}, "x": {}}}
+		xUp := func(w *World) bool { return w.launches["x#0"] > 0 }
+		sc.API = [][]APICall{{
+			{Op: "fn", Name: "range-before-start", When: xUp, Fn: func(w *World) (string, error) {
+				l, err := w.Runner.GetProcessLog("a", 10, 0)
+				return fmt.Sprint(len(l)), err
+			}},
+			{Op: "fn", Name: "subscribe-before-start", Fn: func(w *World) (string, error) {
+				return "", w.Runner.GetLogsAndSubscribe("a", fol(w))
+			}},
+			{Op: "start", Name: "a"},
+		}}
+		sc.Check = func(w *World) []Violation {
+			var vs []Violation
+			for _, r := range w.apiRes {
+				if r.Done && r.Err != nil && r.Call.Op == "fn" {
+					vs = append(vs, viol("C18", "not-started-yet:"+r.Call.Name, "%s on a process that is %s and not started yet fails: %v", r.Call.Name, mark, r.Err))
+				}
+			}
+			if len(vs) == 0 && w.Outcome != "deadlock" && len(w.apiRes) == 3 && w.apiRes[2].Done && w.apiRes[2].Err == nil {
+				wrote := findEvent(w.pre(), 0, func(e Event) bool { return e.Kind == "write" && e.Proc == "a#0" }) >= 0
+				f := fol(w)
+				if wrote && (w.Outcome == "stuck" || w.Outcome == "completed") && strings.Join(f.stream, ",") != "l0,l1" {
+					vs = append(vs, viol("C18", "not-started-yet:follower-lost", "a follower subscribed before the %s process was started received %v of its lines l0 l1", mark, f.stream))
+				}
+			}
+			return vs
+		}
+		scs = append(scs, sc)
+	}
 	if tier == "thorough" {
 		mk("2w-2f", 2, 3, []int{0, 2}, true, 2, 1)
 		mk("2w-1f-k2", 2, 3, []int{2}, true, 1, 2)
